@@ -93,6 +93,35 @@ class Gen:
             return " ".join(parts)
         raise AssertionError(hint)
 
+    def url_text(self):
+        """A plain string holding ONE long URL whose path carries nonce-bracketed
+        metacharacters followed by a metacharacter-free remainder, plus a list of
+        candidate trim_url_limit values placed RELATIVE to that URL: just after its
+        first metacharacter, at / a few characters past the end of each
+        metacharacter group (so a cut there keeps whole groups in the visible label,
+        also when each metacharacter has grown into an entity), inside the remainder,
+        very short, longer than the URL (no trimming) and one uniformly random.
+        -> (text, limits)"""
+        r = self.rng
+        n = self.nonce()
+        groups = [n + r.choice(METAS) + n for _ in range(r.randint(1, 3))]
+        head = r.choice(["http://example.com/", "https://example.com/q?x=", "www.foo.org/", "http://www.foo.org/ab#"])
+        sep = r.choice(["", "/", "ab", "?k="])
+        rest = r.choice(["/lorem/ab/kk/index/lorem/ab/kk/page", "ab" * 16, "/k" * 15 + "#lorem"])
+        url = head + sep.join(groups) + rest
+        limits = [len(head) + 6, 6, len(url) + 25, r.randint(1, len(url) + 8), len(url) - r.randint(1, 6)]
+        pos = len(head)
+        for g in groups:
+            pos += len(g)
+            limits += [pos + off for off in (0, 4, 8, 12, 4 * len(groups) + 1)]
+            pos += len(sep)
+        words = [url]
+        if r.random() < 0.5:
+            words.insert(0, r.choice(["lorem", "(see", n + r.choice(METAS) + n]))
+        if r.random() < 0.5:
+            words.append(r.choice(["ab", "kk.", n + r.choice(METAS) + n]))
+        return " ".join(words), limits
+
     def key_shape(self):
         """An attribute name that passes xmlattr's documented key validation but
         carries nonce-bracketed metacharacters."""
@@ -363,10 +392,22 @@ class Gen:
         if f == "sum":
             return ["bin", "~", ["f", "sum", ["list", [["num", 1], ["num", 2]]], []], self.S_plain(d1)], False
         if f == "urlize":
-            s = self.leaf("url")
             args = []
-            if r.random() < 0.4:
-                args.append(["trim_url_limit", ["num", r.choice([6, 15, 40])]])
+            if r.random() < 0.5:
+                s = self.leaf("url")
+                if r.random() < 0.4:
+                    args.append(["trim_url_limit", ["num", r.choice([6, 15, 40])]])
+            else:
+                # long URL + a trim limit placed relative to the URL's own metacharacters
+                text, limits = self.url_text()
+                if r.random() < 0.45:
+                    s = ["lit", text]
+                else:
+                    nm = self.name("d")
+                    self.data[nm] = text
+                    s = ["d", nm]
+                if r.random() < 0.8:
+                    args.append([r.choice([None, "trim_url_limit"]), ["num", r.choice(limits)]])
             if r.random() < 0.3:
                 args.append(["nofollow", ["bool", True]])
             if r.random() < 0.5:
